@@ -373,6 +373,25 @@ func AtomicallyOrAbort(ctx sdk.Context, f func(ctx sdk.Context) error) (err erro
 	return err, false
 }
 
+// Injected is the value an environment model panics with when the harness asks it to fail by panicking.
+type Injected struct{ What string }
+
+// Aborts runs f and reports whether it was aborted by an injected panic that nothing below recovered (the transaction
+// is then reverted by the caller of the module, E1). Any other panic goes on.
+func Aborts(f func()) (aborted bool) {
+	defer func() {
+		if r := recover(); r != nil {
+			if _, ok := r.(Injected); ok {
+				aborted = true
+				return
+			}
+			panic(r)
+		}
+	}()
+	f()
+	return false
+}
+
 // StateDigest is a digest of everything the module has in its store (natively: all key/value pairs of the
 // orbiter store; symbolically: the content of every summarised collection).
 func StateDigest(ctx sdk.Context) string {
